@@ -1,5 +1,5 @@
 import Originium.Generated.Codec
-import Originium.Model.Codec2
+import Originium.Model.Codec3
 /-! Tie between the translated `Data.Encode` (`Generated/Codec.lean`, regenerated from /repo on every check) and the codec model. -/
 namespace CodecTie
 open Codec
@@ -44,5 +44,167 @@ theorem encodeData_eq (comp : Bytes → Bytes) (es : List Entry) :
   simp only [List.append_assoc, List.nil_append] at this
   rw [this]
   split <;> rfl
+
+/-! ### `Data.Decode` -/
+
+def toT (e : Entry) : Bytes × Bytes × Bool × Nat := (e.key, e.value, e.tomb, e.version)
+
+theorem decLE_length (w : Nat) (bs : Bytes) (v : Nat) (rest : Bytes) (h : decLE w bs = some (v, rest)) : rest.length + w = bs.length := by
+  induction w generalizing bs v rest with
+  | zero => simp [decLE] at h; rw [h.2]; rfl
+  | succ w ih =>
+    cases bs with
+    | nil => simp [decLE] at h
+    | cons b bs =>
+      simp only [decLE, Option.map_eq_some_iff] at h
+      obtain ⟨⟨v', rest'⟩, h1, h2⟩ := h
+      have := ih bs v' rest' h1
+      simp only [Prod.mk.injEq] at h2
+      rw [← h2.2]
+      simp only [List.length_cons]; omega
+
+theorem decEntry_shrinks (prev bs : Bytes) (e : Entry) (rest : Bytes) (h : decEntry prev bs = some (e, rest)) : rest.length < bs.length := by
+  unfold decEntry at h
+  simp only [Option.bind_eq_some_iff] at h
+  obtain ⟨r1, h1, r2, h2, r3, h3, r4, h4, r5, h5, r6, h6, r7, h7, h8⟩ := h
+  have l1 := decLE_length 2 bs r1.1 r1.2 h1
+  have l2 := decLE_length 2 _ r2.1 r2.2 h2
+  have l4 := decLE_length 2 _ r4.1 r4.2 h4
+  have l7 := decLE_length 8 _ r7.1 r7.2 h7
+  have l3 : r3.2.length ≤ r2.2.length := by
+    unfold readN at h3; split at h3
+    · cases h3
+    · cases h3; simp
+  have l5 : r5.2.length ≤ r4.2.length := by
+    unfold readN at h5; split at h5
+    · cases h5
+    · cases h5; simp
+  have l6 : r6.2.length < r5.2.length := by
+    cases hh : r5.2 with
+    | nil => rw [hh] at h6; simp [readByte] at h6
+    | cons b bs' => rw [hh] at h6; simp only [readByte, Option.some.injEq] at h6; rw [← h6]; simp
+  simp only [Option.some.injEq, Prod.mk.injEq] at h8
+  rw [← h8.2]
+  omega
+
+theorem decLE_one (bs : Bytes) : decLE 1 bs = (readByte bs).map fun r => (r.1.toNat, r.2) := by
+  cases bs with
+  | nil => rfl
+  | cons b bs => simp [decLE, readByte]
+
+theorem u8_eq_one (b : UInt8) : decide (b.toNat = 1) = (b == 1) := by
+  by_cases h : b = 1
+  · subst h; rfl
+  · have h2 : b.toNat ≠ 1 := fun hh => h (UInt8.toNat_inj.mp hh)
+    simp [h, h2]
+
+/-- one iteration of the translated loop against the model's `decEntry` -/
+theorem loop_step (exit : Bytes → Bool → Bytes → List (Bytes × Bytes × Bool × Nat) → Option (List (Bytes × Bytes × Bool × Nat)))
+    (fuel : Nat) (b : UInt8) (bs prev : Bytes) (acc : List (Bytes × Bytes × Bool × Nat)) :
+    GenCodec.decodeData.loop1 exit (fuel + 1) (b :: bs) false prev acc =
+      match decEntry prev (b :: bs) with
+      | none => none
+      | some (e, rest) => GenCodec.decodeData.loop1 exit fuel rest false e.key (acc ++ [toT e]) := by
+  rw [GenCodec.decodeData.loop1]
+  simp only [List.length_cons, Nat.zero_lt_succ, decide_true, ↓reduceIte]
+  unfold decEntry
+  cases h1 : decLE 2 (b :: bs) with
+  | none => simp [GenCodec.rdN, GenCodec.rdB, h1]
+  | some r1 =>
+    cases h2 : decLE 2 r1.2 with
+    | none => simp [GenCodec.rdN, GenCodec.rdB, h1, h2]
+    | some r2 =>
+      cases h3 : readN r2.1 r2.2 with
+      | none =>
+        have : r2.2.length < r2.1 := by unfold readN at h3; split at h3 <;> simp_all
+        simp [GenCodec.rdN, GenCodec.rdB, h1, h2, h3, this]
+      | some r3 =>
+        have h3' : ¬ r2.2.length < r2.1 ∧ r3 = (r2.2.take r2.1, r2.2.drop r2.1) := by
+          unfold readN at h3; split at h3
+          · cases h3
+          · rename_i hh; exact ⟨hh, by cases h3; rfl⟩
+        obtain ⟨h3a, rfl⟩ := h3'
+        cases h4 : decLE 2 (r2.2.drop r2.1) with
+        | none => simp [GenCodec.rdN, GenCodec.rdB, h1, h2, h3, h3a, h4]
+        | some r4 =>
+          cases h5 : readN r4.1 r4.2 with
+          | none =>
+            have : r4.2.length < r4.1 := by unfold readN at h5; split at h5 <;> simp_all
+            simp [GenCodec.rdN, GenCodec.rdB, h1, h2, h3, h3a, h4, h5, this]
+          | some r5 =>
+            have h5' : ¬ r4.2.length < r4.1 ∧ r5 = (r4.2.take r4.1, r4.2.drop r4.1) := by
+              unfold readN at h5; split at h5
+              · cases h5
+              · rename_i hh; exact ⟨hh, by cases h5; rfl⟩
+            obtain ⟨h5a, rfl⟩ := h5'
+            cases h6 : readByte (r4.2.drop r4.1) with
+            | none =>
+              have h6' : decLE 1 (r4.2.drop r4.1) = none := by rw [decLE_one, h6]; rfl
+              simp [GenCodec.rdN, GenCodec.rdB, h1, h2, h3, h3a, h4, h5, h5a, h6, h6']
+            | some r6 =>
+              have h6' : decLE 1 (r4.2.drop r4.1) = some (r6.1.toNat, r6.2) := by rw [decLE_one, h6]; rfl
+              cases h7 : decLE 8 r6.2 with
+              | none => simp [GenCodec.rdN, GenCodec.rdB, h1, h2, h3, h3a, h4, h5, h5a, h6, h6', h7]
+              | some r7 =>
+                simp [GenCodec.rdN, GenCodec.rdB, h1, h2, h3, h3a, h4, h5, h5a, h6, h6', h7, toT, u8_eq_one]
+
+theorem loop_eq (fuel : Nat) (bs prev : Bytes) (acc : List (Bytes × Bytes × Bool × Nat)) (hf : bs.length < fuel) :
+    GenCodec.decodeData.loop1 (fun _ _ _ entries => some entries) fuel bs false prev acc =
+      (decData fuel prev bs).map fun es => acc ++ es.map toT := by
+  induction fuel generalizing bs prev acc with
+  | zero => omega
+  | succ f ih =>
+    cases bs with
+    | nil => simp [GenCodec.decodeData.loop1, decData]
+    | cons b bs =>
+      rw [loop_step, decData]
+      cases hd : decEntry prev (b :: bs) with
+      | none => rfl
+      | some er =>
+        obtain ⟨e, rest⟩ := er
+        have hs := decEntry_shrinks prev (b :: bs) e rest hd
+        simp only
+        rw [ih rest e.key (acc ++ [toT e]) (by simp only [List.length_cons] at hf hs; omega)]
+        cases decData f e.key rest <;> simp
+
+/-- the translated `Data.Decode` is the model's decoder: decompress, then `decData` from an empty previous key; the decoded
+    entries are appended to the receiver's -/
+theorem decodeData_eq (decomp : Bytes → Option Bytes) (data : Bytes) (entries0 : List (Bytes × Bytes × Bool × Nat)) :
+    GenCodec.decodeData decomp data entries0 =
+      (decomp data).bind fun raw => (decData (raw.length + 1) [] raw).map fun es => entries0 ++ es.map toT := by
+  unfold GenCodec.decodeData
+  cases hd : decomp data with
+  | none => simp
+  | some raw =>
+    simp only [Option.isNone_some, Bool.false_eq_true, ↓reduceIte, Option.getD_some, Option.bind_some]
+    exact loop_eq (raw.length + 1) raw [] entries0 (by omega)
+
+theorem encData_length_ge (prev : Bytes) (es : List Entry) : es.length ≤ (encData prev es).length := by
+  induction es generalizing prev with
+  | nil => simp [encData]
+  | cons e es ih =>
+    have := ih e.key
+    simp only [encData, encEntry, List.length_append, List.length_cons, List.length_nil]
+    omega
+
+/-- **round trip of the translated code**: what the translated `Data.Encode` returns, the translated `Data.Decode` (into an empty
+    receiver) turns back into exactly the entries, for every S2 that decompresses what it compressed -/
+theorem code_roundtrip (z : S2) (hz : S2Law z) (es : List Entry) (hv : ∀ e ∈ es, e.version < 2 ^ 64) (b : Bytes)
+    (h : GenCodec.encodeData z.comp es = some b) : GenCodec.decodeData z.decomp b [] = some (es.map toT) := by
+  rw [encodeData_eq] at h
+  obtain ⟨raw, hraw, rfl⟩ := Option.map_eq_some_iff.mp h
+  rw [decodeData_eq, hz.single]
+  simp only [Option.bind_some, List.nil_append]
+  have hlen : es.length ≤ raw.length + 1 := by
+    have hs : (encodeData es).isSome = true := by rw [hraw]; rfl
+    unfold encodeData at hraw
+    split at hraw
+    · injection hraw with hraw
+      rw [← hraw]
+      have := encData_length_ge [] es
+      omega
+    · cases hraw
+  rw [decData_encodeData es raw hraw hv (raw.length + 1) hlen]
+  rfl
 
 end CodecTie
